@@ -80,5 +80,6 @@ try:
     print(name, "confirmed=", confirmed, "caught_by=", meta["caught_by"],
           {p: c["exit"] for p, c in checks.items()})
 finally:
+    subprocess.run([str(VERIF / 'tools' / 'regen_tables.sh')], stdout=subprocess.DEVNULL, stderr=subprocess.DEVNULL)
     subprocess.call(["git", "-C", "/repo", "worktree", "remove", "--force", str(wt)])
     shutil.rmtree(wt, ignore_errors=True)
